@@ -31,37 +31,37 @@ def _p(explanation, not_decided, rules, assumptions=None):
 def registry():
     R = {}
     R["C01"] = _p(
-        "Decides structural clauses of C01 on the typed HIR of src/xlsx: the two cell walkers move the row/column cursor identically (R-SIB-XLSX); a <c> with an `r` attribute is reported at the (row, col) that attribute decodes to, in that order, and otherwise at the running cursor (R-CELLPOS); the declared <dimension> only sizes capacity hints (R-DIM); running min/max of the bounding box are updated independently (R-MINMAX); element names are matched prefix-insensitively and like with like (R-NS); parts are opened only through the case-insensitive resolver (R-PART); the `t` attribute maps to the documented variants (R-TAB-T) and error literals to error kinds (R-TAB-ERR); shared-string and style indices are parsed as usize (R-IDXWIDTH); Empty cells are filtered before every push (R-TIGHT) and Empty means exactly the Empty variant (R-EMPTYDEF); readers expand empty elements and never trim (R-XMLCFG); the shared-string table gets one entry per <si> (R-SST); every Text/CData piece of an element is unescaped and appended, never assigned (R-CDATA); phonetic runs never reach the value of a string (R-RPH); attributes are looked up by their full name (R-ATTRKEY).",
+        "Decides structural clauses of C01 on the typed HIR of src/xlsx: the two cell walkers move the row/column cursor identically (R-SIB-XLSX); a <c> with an `r` attribute is reported at the (row, col) that attribute decodes to, in that order, and otherwise at the running cursor (R-CELLPOS); the declared <dimension> only sizes capacity hints (R-DIM); running min/max of the bounding box are updated independently (R-MINMAX); element names are matched prefix-insensitively and like with like (R-NS); parts are opened only through the case-insensitive resolver (R-PART); the `t` attribute maps to the documented variants (R-TAB-T) and error literals to error kinds (R-TAB-ERR); shared-string and style indices are parsed as usize (R-IDXWIDTH); Empty cells are filtered before every push (R-TIGHT) and Empty means exactly the Empty variant (R-EMPTYDEF); readers expand empty elements and never trim (R-XMLCFG); the shared-string table gets one entry per <si> (R-SST); every Text/CData piece of an element is unescaped and appended, never assigned (R-CDATA); phonetic runs never reach the value of a string (R-RPH); attributes are looked up by their full name (R-ATTRKEY); the string helper leaves the reader behind its element (R-STRDRAIN); one style entry per <xf> (R-SST cellXfs); date values keep value, flavour and date system (R-DTNEW).",
         "A1 -> (row, col) arithmetic, number parsing, relationship-target normalisation, the zip layer; an identical edit applied to both walkers",
-        [S.r_sib_xlsx, W.r_dim, X.r_ns, X.r_part, T.r_tab_t, T.r_tab_err, S.r_tight, X.r_xmlcfg, part(W.r_sst, only=["xlsx shared"]), W.r_minmax, X.r_cdata, U.r_cellpos, U.r_idxwidth, U.r_emptydef, X.r_rph, U3.r_attrkey])
+        [S.r_sib_xlsx, W.r_dim, X.r_ns, X.r_part, T.r_tab_t, T.r_tab_err, S.r_tight, X.r_xmlcfg, part(W.r_sst, only=["xlsx shared"]), W.r_minmax, X.r_cdata, U.r_cellpos, U.r_idxwidth, U.r_emptydef, X.r_rph, U3.r_attrkey, U3.r_strdrain, U3.r_dtnew, part(W.r_sst, only=["cellXfs"])])
     R["C02"] = _p(
-        "Decides structural clauses of C02 on src/xls.rs: the sheet-substream dispatch has an arm feeding the cell vector for each record kind the property names (R-TAB-REC); BoolErr / FormulaValue error codes follow MS-XLS BErr (R-TAB-ERR); every length guard that raises Len { expected: E } is exactly `len < E` (R-LENGUARD); the RK divide-by-100 flag divides by 100 and the 30-bit integer comes from an arithmetic shift of an i32 (R-RK); DIMENSIONS only sizes a reserve (R-DIM); bounding-box min/max are independent (R-MINMAX); per-sheet accumulators are appended to, never reassigned (R-ACCUM); shared strings that continue into CONTINUE records re-read the compression flag, skip rich/extended data in order and dequeue fragments first-in first-out (R-CONT); the text of a string-valued formula is stored at the position of the last FORMULA record, state that only the FORMULA and STRING arms touch (R-FMLAPOS); the FormulaValue kinds 0..3 are told apart under the 0xFFFF marker and their payload is byte 2 (R-TAB-FMLAVAL); compressed and 16-bit characters go through the one workbook decoder (R-DBCS-ENC).",
+        "Decides structural clauses of C02 on src/xls.rs: the sheet-substream dispatch has an arm feeding the cell vector for each record kind the property names (R-TAB-REC); BoolErr / FormulaValue error codes follow MS-XLS BErr (R-TAB-ERR); every length guard that raises Len { expected: E } is exactly `len < E` (R-LENGUARD); the RK divide-by-100 flag divides by 100 and the 30-bit integer comes from an arithmetic shift of an i32 (R-RK); DIMENSIONS only sizes a reserve (R-DIM); bounding-box min/max are independent (R-MINMAX); per-sheet accumulators are appended to, never reassigned (R-ACCUM); shared strings that continue into CONTINUE records re-read the compression flag, skip rich/extended data in order and dequeue fragments first-in first-out (R-CONT); the text of a string-valued formula is stored at the position of the last FORMULA record, state that only the FORMULA and STRING arms touch (R-FMLAPOS); the FormulaValue kinds 0..3 are told apart under the 0xFFFF marker and their payload is byte 2 (R-TAB-FMLAVAL); compressed and 16-bit characters go through the one workbook decoder (R-DBCS-ENC); FormulaValue kinds 1 / 3 build Bool / String (R-TAB-FMLAVAL ctor); date values are stored unchanged (R-DTNEW).",
         "IEEE bit arithmetic, MULRK column arithmetic, string decoding inside encoding_rs",
-        [T.r_tab_rec, T.r_tab_err, W.r_dim, W.r_minmax, M.r_rk, M.r_accum, W.r_cont, U.r_lenguard, U3.r_fmlapos, U3.r_tab_fmlaval, U.r_dbcs_enc, U3.r_dbcs_out])
+        [T.r_tab_rec, T.r_tab_err, W.r_dim, W.r_minmax, M.r_rk, M.r_accum, W.r_cont, U.r_lenguard, U3.r_fmlapos, U3.r_tab_fmlaval, U.r_dbcs_enc, U3.r_dbcs_out, U3.r_fmlaval_ctor, U3.r_dtnew])
     R["C03"] = _p(
-        "Decides structural clauses of C03 on src/xlsb: sibling agreement of next_cell / next_formula on record framing, row state, record ids and position computation (R-SIB-XLSB); error-code table (R-TAB-ERR); BrtWsDim only sizes capacity hints (R-DIM); Empty filter and header-row filter of the lazy range builder (R-TIGHT); the record-header decoders read at most 2 (type) / 4 (size) bytes of 7 bits each with shifts 7, 14, 21 -- partial evaluation of their MIR with the input bytes unknown (R-VARINT).",
+        "Decides structural clauses of C03 on src/xlsb: sibling agreement of next_cell / next_formula on record framing, row state, record ids and position computation (R-SIB-XLSB); error-code table (R-TAB-ERR); BrtWsDim only sizes capacity hints (R-DIM); Empty filter and header-row filter of the lazy range builder (R-TIGHT); the record-header decoders read at most 2 (type) / 4 (size) bytes of 7 bits each with shifts 7, 14, 21 -- partial evaluation of their MIR with the input bytes unknown (R-VARINT); fill_buffer rejects no record size by itself (R-RECSIZE); date values are built and read back unchanged (R-DTNEW, R-DTVALUE).",
         "RK arithmetic beyond the flag handling, wide_str decoding",
-        [S.r_sib_xlsb, T.r_tab_err, W.r_dim, S.r_tight, W.r_minmax, M.r_rk, U.r_varint, U.r_utf16])
+        [S.r_sib_xlsb, T.r_tab_err, W.r_dim, S.r_tight, W.r_minmax, M.r_rk, U.r_varint, U.r_utf16, U3.r_dtnew, U3.r_dtvalue, U3.r_recsize])
     R["C04"] = _p(
-        "Decides on src/ods.rs: the value-attribute -> variant table of the cell decoder (R-TAB-ODS); only the two *-repeated attributes feed repeat counts and the parsed count is not clamped (R-ODSREP); only the row arm of read_table consumes reader events (R-ODSFLAT); every grid row written by get_range is exactly col_max + 1 - col_min cells wide, by linear evaluation of the emitted slice lengths (R-ODSWIDTH); paragraphs are joined by a first-paragraph flag (R-ODSPARA); whitespace and comments between elements never abort a pull loop (R-BENIGN); reader configuration (R-XMLCFG).  Amplification by repeat counts is decided under C06.",
+        "Decides on src/ods.rs: the value-attribute -> variant table of the cell decoder (R-TAB-ODS); only the two *-repeated attributes feed repeat counts and the parsed count is not clamped (R-ODSREP); only the row arm of read_table consumes reader events (R-ODSFLAT); every grid row written by get_range is exactly col_max + 1 - col_min cells wide, by linear evaluation of the emitted slice lengths (R-ODSWIDTH); paragraphs are joined by a first-paragraph flag (R-ODSPARA); whitespace and comments between elements never abort a pull loop (R-BENIGN); reader configuration (R-XMLCFG); Empty means exactly the Empty variant for the row reader's empty-run test (R-EMPTYDEF); by-index access is not overridden over a map of sheets (R-AT override).  Amplification by repeat counts is decided under C06.",
         "the run-length arithmetic of get_range beyond the width clause (first_empty_rows_repeated, row_max bookkeeping), bounding-box positions",
-        [T.r_tab_ods, X.r_xmlcfg, W.r_odspara, M.r_odsrep, M.r_odsflat, U.r_odswidth, U.r_benign])
+        [T.r_tab_ods, X.r_xmlcfg, W.r_odspara, M.r_odsrep, M.r_odsflat, U.r_odswidth, U.r_benign, U3.r_at_override, U.r_emptydef])
     R["C06"] = _p(
         "Decides, over the HIR/MIR of the reader modules (cfb, vba, xls, xlsb, xlsx, ods, utils, auto, plus Dimensions::len and Range::from_sparse): XML pull loops leave on Eof (R-EOF); self-chasing loops have a bounding exit (R-CHASE); Range::range preconditions (R-RANGEPRE); and, by abstract interpretation of MIR (linear expressions over source atoms, intervals, symbolic and exact slice lengths, branch refinement; helper summaries: constant length needs moved to call sites, return intervals, facts a Result-returning guard helper ensures on Ok, argument intervals and argument relations of private functions): every slice/index/split/copy on file bytes or with a file-derived index is bounds-proved (R-INDEX), file-derived arithmetic cannot overflow (R-ARITH), file-derived allocation sizes are capped or input-bounded (R-ALLOC), file-derived trip counts consume input or do not grow memory, for counted `for` loops and for `while container.len() < n` loops (R-AMP), unwrap/expect/panic constructs are discharged by an enumerated idiom (R-PANIC); the byte count of Read::read is never discarded (R-IOAMT); the character loop of read_dbcs advances to the next CONTINUE fragment or fails whenever characters are owed (R-DBCS-PROGRESS); reserved compound-file sector numbers never reach Sectors::get (R-CFBRES: one known finding).  Sites the pinned tree leaves unchecked are listed in known_findings.json (each group demonstrated by a failing input) or audited_safe.json (one reason per site).",
         "dependencies (zip, quick-xml, encoding_rs, codepage); time / memory constants",
         [X.r_eof, W.r_rangepre, M.r_chase, Z.r_mir, U.r_ioamt, U.r_dbcs_progress, U.r_cfbres, U.r_ovbachunk])
     R["C07"] = _p(
-        "Decides: the write footprint of every public read method of the four reader structs is limited to the archive cursor and designated setters/loaders, and no reader stores a cursor (R-FRAME); every Sheets method forwards to the same method of the wrapped reader (R-DELEG); worksheet_range_at & co use n itself (R-AT); worksheets() goes through worksheet_range or the very field it returns (R-WS); unknown names reach WorksheetNotFound (R-NOTFOUND); From<DataRef> for Data preserves variants (R-TAB-FROM); a zip lacking the format's mandatory part is rejected so that auto-detection cannot pick the wrong reader (R-AUTODETECT); a borrowed range / cell reader keeps the workbook exclusively borrowed (compile_fail witnesses with compiling twins, R-WITNESS); the xlsx table / merged-region caches are written only after the last fallible step of their loader (R-CACHEATOMIC).",
+        "Decides: the write footprint of every public read method of the four reader structs is limited to the archive cursor and designated setters/loaders, and no reader stores a cursor (R-FRAME); every Sheets method forwards to the same method of the wrapped reader (R-DELEG); worksheet_range_at & co use n itself (R-AT); worksheets() goes through worksheet_range or the very field it returns (R-WS); unknown names reach WorksheetNotFound (R-NOTFOUND); From<DataRef> for Data preserves variants (R-TAB-FROM); a zip lacking the format's mandatory part is rejected so that auto-detection cannot pick the wrong reader (R-AUTODETECT); a borrowed range / cell reader keeps the workbook exclusively borrowed (compile_fail witnesses with compiling twins, R-WITNESS); the xlsx table / merged-region caches are written only after the last fallible step of their loader (R-CACHEATOMIC); by-index access is not overridden over a map of sheets (R-AT override).",
         "equality of values across calls beyond the frame condition (zip / XML determinism is trusted)",
-        [W.r_frame, S.r_deleg, S.r_at, S.r_ws, S.r_notfound, T.r_tab_from, W.r_autodetect, N.r_witness, U3.r_cacheatomic])
+        [W.r_frame, S.r_deleg, S.r_at, S.r_ws, S.r_notfound, T.r_tab_from, W.r_autodetect, N.r_witness, U3.r_cacheatomic, U3.r_at_override])
     R["C08"] = _p(
-        "Decides: options.header_row has one writer and is re-read on every call (R-FRAME); the lazy filter keeps rows >= n and pads at row n iff needed (R-TIGHT); the eager readers window the stored range as range((n, start.1), end) with n from HeaderRow::Row and start/end of the stored range (R-HDRWIN); Range::range is only reached with start <= end established (R-RANGEPRE); the declared dimension never decides what is returned (R-DIM); Sheets::with_header_row delegates (R-DELEG).",
+        "Decides: options.header_row has one writer and is re-read on every call (R-FRAME); the lazy filter keeps rows >= n and pads at row n iff needed (R-TIGHT); the eager readers window the stored range as range((n, start.1), end) with n from HeaderRow::Row and start/end of the stored range (R-HDRWIN); Range::range is only reached with start <= end established (R-RANGEPRE); the declared dimension never decides what is returned (R-DIM); Sheets::with_header_row delegates (R-DELEG); the owned conversion keeps every DataRef variant (R-TAB-FROM); a blank-string formula result is a value (R-TAB-FMLAVAL ctor).",
         "value equality between the eager (xls, ods) and lazy (xlsx, xlsb) implementations",
-        [W.r_frame, S.r_tight, W.r_rangepre, S.r_deleg, W.r_dim, U.r_hdrwin])
+        [W.r_frame, S.r_tight, W.r_rangepre, S.r_deleg, W.r_dim, U.r_hdrwin, T.r_tab_from, U3.r_fmlaval_ctor])
     R["C09"] = _p(
-        "Decides: size_hint reads state that next advances (R-ITER); error positions depend on the column index and the row position advances (R-POS); every DataDeserializer method maps Data::Error to CellError{kind,pos} and Empty as documented (R-TAB-DE); header selection trims both sides, compares exactly and reports HeaderNotFound (R-HDR); map access skips exactly the empty cells (R-MAPKEY); integer cells reach integer fields by one `as` cast, never through a float (R-INTCAST); numeric strings are parsed as the field's own type (R-NUMPARSE); the row position advances once per row taken, before any fallible step (R-POS every-row); only explicitly requested headers are located by name, the default stays positional (R-HDR all-positional).",
+        "Decides: size_hint reads state that next advances (R-ITER); error positions depend on the column index and the row position advances (R-POS); every DataDeserializer method maps Data::Error to CellError{kind,pos} and Empty as documented (R-TAB-DE); header selection trims both sides, compares exactly and reports HeaderNotFound (R-HDR); map access skips exactly the empty cells (R-MAPKEY); integer cells reach integer fields by one `as` cast, never through a float (R-INTCAST); numeric strings are parsed as the field's own type (R-NUMPARSE); the row position advances once per row taken, before any fallible step (R-POS every-row); only explicitly requested headers are located by name, the default stays positional (R-HDR all-positional); the serde visitor of Data maps each callback to its own variant (R-TAB-VISIT); a date cell's numeric value is the stored serial (R-DTVALUE).",
         "values of the casts themselves, serde's own behaviour",
-        [W.r_iter, W.r_pos, T.r_tab_de, W.r_hdr, W.r_mapkey, U.r_intcast, U.r_numparse, U.r_intarm, U.r_emptydef, U3.r_pos_everyrow, U3.r_hdr_all])
+        [W.r_iter, W.r_pos, T.r_tab_de, W.r_hdr, W.r_mapkey, U.r_intcast, U.r_numparse, U.r_intarm, U.r_emptydef, U3.r_pos_everyrow, U3.r_hdr_all, U3.r_tab_visit, U3.r_dtvalue])
     R["C10"] = _p(
         "Decides: numeric Data/DataRef variants are built in the three readers only through formats::format_excel_* whose format operand comes from the cell's style lookup and whose date-system operand from the reader flag (R-NUMCTOR); the xlsb style index is the 24-bit iStyleRef only (R-XLSBCELL), xlsx style indices are parsed as usize (R-IDXWIDTH); the two built-in id tables agree with each other and with ECMA-376 18.8.30 (R-TAB-FMT); declared formats win over built-in ids (R-FMTPREC); format kind -> DateTime/TimeDelta flavour (R-TAB-FMTKIND); format codes are unescaped (R-UNESC); style tables get one entry per xf (R-SST); the scanner's decision table is evaluated over a finite abstract input space against 13 clauses (R-FMT-SCAN); the constructor every date value goes through stores value, flavour and date system unchanged (R-DTNEW); cell attributes (s, t, r) are looked up by their full name (R-ATTRKEY).",
         "the full number-format grammar (R-FMT-SCAN decides the per-character decision table of the scanner against the clauses the property states, not the language as a whole)",
@@ -71,13 +71,13 @@ def registry():
         "the floating-point rounding to the millisecond, monotonicity as a numeric fact, Int/Float cells converting like 1900-system date-times beyond their routing through ExcelDateTime",
         [D.r_c11, D.r_c11_conv, U3.r_date_split, U3.r_date_variant, U3.r_dtnew])
     R["C12"] = _p(
-        "Decides: after a fragment switch inside a character run the compression flag is re-read and its byte consumed; rich-text runs then extended data are skipped unconditionally in order; Record::skip consumes no flag byte (R-CONT); the SST gets one entry per item (R-SST); the character loop always advances or fails (R-DBCS-PROGRESS); all three storage forms are decoded by the one workbook decoder after widening (R-DBCS-ENC), and nothing reaches the output string except through it (R-DBCS-ENC out).",
+        "Decides: after a fragment switch inside a character run the compression flag is re-read and its byte consumed; rich-text runs then extended data are skipped unconditionally in order; Record::skip consumes no flag byte (R-CONT); the SST gets one entry per item (R-SST); the character loop always advances or fails (R-DBCS-PROGRESS); all three storage forms are decoded by the one workbook decoder after widening (R-DBCS-ENC), and nothing reaches the output string except through it (R-DBCS-ENC out); the storage form is decided by the flag, never by the bytes left in the record (R-DBCS-FLAG); the SST count is used unclamped (R-SSTCOUNT).",
         "8/16-bit decoding arithmetic inside encoding_rs",
-        [W.r_cont, part(W.r_sst, only=["xls SST"]), U.r_dbcs_progress, U.r_dbcs_enc, U3.r_dbcs_out])
+        [W.r_cont, part(W.r_sst, only=["xls SST"]), U.r_dbcs_progress, U.r_dbcs_enc, U3.r_dbcs_out, U3.r_dbcs_flag, U3.r_sstcount])
     R["C13"] = _p(
-        "Decides: header and directory-entry field offsets follow MS-CFB (R-TAB-CFB); mini-stream cutoff `len < 4096` selecting mini FAT vs FAT and truncation of the chain to the stream length (R-CFBFLOW); every directory entry is decoded (R-CFBDIR); FAT / DIFAT walks are bounded (R-CHASE: two known findings); the FAT tables are built append-only (R-CFBTAB); a Cfb is not cloned and then used alongside its clone, which would share the reader but not the sector cache (R-CFBCLONE); the directory and mini-FAT chains are truncated to sector count x sector size of the file (R-CFBLEN).",
+        "Decides: header and directory-entry field offsets follow MS-CFB (R-TAB-CFB); mini-stream cutoff `len < 4096` selecting mini FAT vs FAT and truncation of the chain to the stream length (R-CFBFLOW); every directory entry is decoded (R-CFBDIR); FAT / DIFAT walks are bounded (R-CHASE: two known findings); the FAT tables are built append-only (R-CFBTAB); a Cfb is not cloned and then used alongside its clone, which would share the reader but not the sector cache (R-CFBCLONE); the directory and mini-FAT chains are truncated to sector count x sector size of the file (R-CFBLEN); table sectors decode to one entry per 4 bytes, all of them (R-TOU32); a short last sector is tolerated (R-CFBTAIL).",
         "sector offset arithmetic, chain order",
-        [T.r_tab_cfb, W.r_cfbflow, M.r_cfbdir, M.r_chase, U.r_cfbclone, U.r_cfbtab, U.r_cfbver, U.r_bookorder, U3.r_cfblen])
+        [T.r_tab_cfb, W.r_cfbflow, M.r_cfbdir, M.r_chase, U.r_cfbclone, U.r_cfbtab, U.r_cfbver, U.r_bookorder, U3.r_cfblen, U3.r_tou32, U3.r_cfbtail])
     R["C14"] = _p(
         "Decides: operator tokens (R-TAB-OP) and error literals (R-TAB-ERR) of both token decoders follow MS-XLS/MS-XLSB; operand tokens push one entry and consume the payload width of the spec, reference tokens render the column masked to 14 bits with `$` exactly on the absolute components from the right payload bytes (R-TAB-PTG); formula cell positions through the sibling rules (R-SIB-XLSX, R-SIB-XLSB); defined-name tables get one entry per record so name tokens resolve (R-SST); both decoders keep the same operand-stack / output-buffer discipline per token class (R-SIB-PTG); PtgAttr sub-token widths follow the spec incl. the variable PtgAttrChoose table (R-TAB-ATTR); 3-D references and defined names reach their sheet through ExternSheet (R-XTI); every digit of a column index reaches the rendered letters (R-DIGITS, must-use on MIR); explicit cell references decide formula positions (R-CELLPOS); the token stream of a defined name is located from the record end or by the byte count of the name, never by its character count (R-LBLRGCE); the string helper reports the byte count, not the character count (R-STRBYTES returns-bytes).",
         "the digit arithmetic of push_column beyond the must-use clause, function-name table contents",
@@ -95,13 +95,13 @@ def registry():
         "that decompression inverts compression (the copy loop, token arithmetic on concrete values), the reference records, project information records other than the code page",
         [V.r_tab_vbadir, V.r_vbamod, V.r_tab_ovba, U.r_ovbachunk, V.r_vbaref, V.r_ovbastart, U3.r_tab_vbaref])
     R["C19"] = _p(
-        "Decides: shared-string tables get one entry per item (R-SST); every text-accumulating event match handles Text and CData, unescapes and appends (R-CDATA); readers never trim and always expand empty elements (R-XMLCFG); phonetic flag set/cleared in pairs and guarding <t> (R-RPH); prefix-insensitive element matching incl. rich-text closing tags (R-NS); text attributes are unescaped (R-UNESC); CONTINUE handling of xls strings (R-CONT) and the single-decoder rule for their storage forms (R-DBCS-ENC); xlsb strings go through a UTF-16 decoder (R-UTF16); ods paragraphs (R-ODSPARA); item loops are not cut at declared counts (R-COUNTHINT); xlsb record sizes keep all 28 bits (R-VARINT).",
+        "Decides: shared-string tables get one entry per item (R-SST); every text-accumulating event match handles Text and CData, unescapes and appends (R-CDATA); readers never trim and always expand empty elements (R-XMLCFG); phonetic flag set/cleared in pairs and guarding <t> (R-RPH); prefix-insensitive element matching incl. rich-text closing tags (R-NS); text attributes are unescaped (R-UNESC); CONTINUE handling of xls strings (R-CONT) and the single-decoder rule for their storage forms (R-DBCS-ENC); xlsb strings go through a UTF-16 decoder (R-UTF16); ods paragraphs (R-ODSPARA); item loops are not cut at declared counts (R-COUNTHINT); xlsb record sizes keep all 28 bits (R-VARINT) and are not rejected (R-RECSIZE); xls storage-form decision and SST count (R-DBCS-FLAG, R-SSTCOUNT); blank strings are values (R-EMPTYDEF).",
         "per-character decoding in dependencies (encoding_rs, quick-xml entity expansion)",
-        [part(W.r_sst, only=["shared strings", "xls SST"]), X.r_cdata, X.r_xmlcfg, X.r_rph, X.r_ns, W.r_cont, W.r_odspara, M.r_unesc, M.r_counthint, U.r_dbcs_enc, U.r_utf16, U.r_varint, U3.r_dbcs_out])
+        [part(W.r_sst, only=["shared strings", "xls SST"]), X.r_cdata, X.r_xmlcfg, X.r_rph, X.r_ns, W.r_cont, W.r_odspara, M.r_unesc, M.r_counthint, U.r_dbcs_enc, U.r_utf16, U.r_varint, U3.r_dbcs_out, U3.r_recsize, U3.r_sstcount, U.r_emptydef, U3.r_dbcs_flag])
     R["C20"] = _p(
-        "Decides: the password sniff dominates archive opening and its error is propagated; it rewinds the reader to offset 0 right before parsing the compound file; Password depends exactly on the EncryptedPackage entry; the FILEPASS arm is unconditional and the only place where xls builds Password; any manifest:encryption-data start returns Password and the scan is always reached; Password variants are built nowhere else (R-PWD); the directory the sniff searches is read in full whatever the sector size (R-CFBLEN) and its entries (name cut at the first NUL, type, start, size) are decoded at the offsets of MS-CFB (R-TAB-CFB).",
+        "Decides: the password sniff dominates archive opening and its error is propagated; it rewinds the reader to offset 0 right before parsing the compound file; Password depends exactly on the EncryptedPackage entry; the FILEPASS arm is unconditional and the only place where xls builds Password; any manifest:encryption-data start returns Password and the scan is always reached; Password variants are built nowhere else (R-PWD); the directory the sniff searches is read in full whatever the sector size (R-CFBLEN) and its entries (name cut at the first NUL, type, start, size) are decoded at the offsets of MS-CFB (R-TAB-CFB); a container whose last sector is short still opens (R-CFBTAIL).",
         "container-layout independence of the sniff (delegated to C13)",
-        [W.r_pwd, U3.r_cfblen, T.r_tab_cfb])
+        [W.r_pwd, U3.r_cfblen, T.r_tab_cfb, U3.r_cfbtail])
     return R
 
 
